@@ -87,10 +87,25 @@ fn run(rng: &mut Rng, _idx: u64, tier: Tier) -> CaseOut {
     nopts.hostile_names = rng.chance(1, 4);
     let net = crate::net::gen_net(rng, &nopts);
     let world = World::from_net(net, rng, 10, 128);
-    let k = rng.below(5) as u16;
-    let sys = match build(&world, k) {
-        Ok(s) => s,
-        Err(e) => return discard(&world, &e),
+    let mut k = rng.below(5) as u16;
+    let uneven = rng.chance(1, 5);
+    let sys = if uneven {
+        // a graph whose variables have different numbers of spare copies supports min(count) state variables
+        let counts: Vec<u16> = (0..world.n()).map(|_| rng.below(4) as u16).collect();
+        k = counts.iter().copied().min().unwrap_or(0);
+        if world.valid_colours() == 0 && world.cs.exhaustive {
+            return discard(&world, "no valid colour (harness)");
+        }
+        match libg::guarded(|| libg::build_sys_uneven(&world.net, &counts, &world.cs.bits)) {
+            Ok(Ok(s)) => s,
+            Ok(Err(e)) => return discard(&world, &e),
+            Err(p) => return discard(&world, &format!("PANIC {p}")),
+        }
+    } else {
+        match build(&world, k) {
+            Ok(s) => s,
+            Err(e) => return discard(&world, &e),
+        }
     };
     // the input string
     let labels = ["p", "q", "d"];
@@ -176,6 +191,9 @@ fn run(rng: &mut Rng, _idx: u64, tier: Tier) -> CaseOut {
         out.count("deep_nesting_inputs");
     }
     out.count(&format!("input_kind_{kind}"));
+    if uneven {
+        out.count("graphs_with_uneven_spare_counts");
+    }
     hooks_on();
     let detail = |why: &str, extra: Vec<(&str, J)>| {
         let mut items = vec![("input", J::s(&input)), ("k", J::Int(k as i64)), ("labels_present", J::arr_str(&present)), ("why", J::s(why))];
